@@ -74,6 +74,31 @@ class Unroll:
         return text[:start] + '\n'.join(out) + text[be + 1:]
 
 
+class Outline:
+    """Rule-like: the brace block introduced by `intro_regex` (matched on the masked text, exactly once, ending right before
+    the `{`) is replaced by `{ <call> }`.  The same intro regex is given to Unit.block(), which extracts that very block as
+    a C function of its own; the enclosing function is then proved with the call replaced by the block's contract."""
+
+    def __init__(self, intro_regex, call, new_intro=None):
+        self.intro, self.call, self.new_intro = intro_regex, call, new_intro
+
+    def apply(self, text, where=''):
+        m = lex.mask(text)
+        hits = []
+        for mo in re.finditer(self.intro, m, re.S):
+            j = mo.end()
+            while j < len(m) and m[j] in ' \t\r\n':
+                j += 1
+            if j < len(m) and m[j] == '{':
+                hits.append((mo.start(), mo.end(), j))
+        if len(hits) != 1:
+            raise ExtractionBreak('%s: outline /%s/: %d matches (exactly 1 required)' % (where, self.intro, len(hits)))
+        s, he, b = hits[0]
+        e = lex.match_close(m, b)
+        intro = text[s:he] if self.new_intro is None else self.new_intro
+        return text[:s] + intro + ' { ' + self.call + ' }' + text[e + 1:]
+
+
 class LoopGhost:
     """Rule-like: ghost statements at the body start of loop number `ordinal` (textual order).  Independent of the wording
     of the loop header, so an edited header reaches the verifier instead of breaking the extraction."""
@@ -98,11 +123,11 @@ class LoopGhost:
 # ---------------------------------------------------------------------------------------------------------------------
 # src/Encoding.cc
 # ---------------------------------------------------------------------------------------------------------------------
-# ghosts: g_q = size / 3 (function start), g_i = iterations begun (incremented at loop-body start)
+# ghosts: g_q == size / 3 (precondition), g_i = iterations begun (incremented at loop-body start)
 ENCODE_LOOP = """
 __CPROVER_assigns(offset, g_i, ret->size, __CPROVER_object_whole(ret->data))
 __CPROVER_loop_invariant(g_i <= g_q && end_offset == 3 * g_q && offset == 3 * g_i && ret->size == 4 * g_i)
-__CPROVER_loop_invariant(g_blk < g_i ==> (ret->data[4 * g_blk] == ENC_C0 && ret->data[4 * g_blk + 1] == ENC_C1 && ret->data[4 * g_blk + 2] == ENC_C2 && ret->data[4 * g_blk + 3] == ENC_C3))
+__CPROVER_loop_invariant(g_blk < g_i ==> (ret->data[4 * g_blk] == g_e0 && ret->data[4 * g_blk + 1] == g_e1 && ret->data[4 * g_blk + 2] == g_e2 && ret->data[4 * g_blk + 3] == g_e3))
 __CPROVER_decreases(g_q - g_i)
 """
 
@@ -127,6 +152,14 @@ __CPROVER_decreases(size - x)
 PUSH = Rule('ret.push_back(', 'vstr_push_back(ret, ', count='+')
 RETSTR = [Rule(r'\bstring ret;', '', count=1, regex=True), Rule(r'\breturn ret;', 'return;', count=1, regex=True)]
 
+# where the blocks are cut (tolerant of edits inside the parentheses: an edited header reaches the verifier)
+ENC_SIG = r'string base64_encode\(const void\* vdata, size_t size, const char\* alphabet\)'
+DEC_SIG = r'string base64_decode\(const void\* vdata, size_t size, const char\* alphabet\)'
+ENC_FOR = r'\bfor \([^{}]*\)'
+ENC_IF2 = r'(?<!else )\bif \(size - end_offset[^{}]*\)'
+ENC_IF1 = r'\belse if \(size - end_offset[^{}]*\)'
+DEC_FOR = r'\bfor \(size_t offset[^{}]*\)'
+
 
 def encoding_units(ctx, src):
     ua = Unit(ctx, 'b64_alphabets')
@@ -136,19 +169,30 @@ def encoding_units(ctx, src):
         ua.raw('const char %s[] = %s;' % (name, lit))
     ua.write(suffix='.h', scan=False)
     u = Unit(ctx, 'encoding')
-    u.function(src, ENC, r'string base64_encode\(const void\* vdata, size_t size, const char\* alphabet\)',
+    # ---- base64_encode: loop body and the two tail branches (step contracts), and the whole function ----
+    u.block(src, ENC, ENC_SIG, ENC_FOR, new_header='void base64_encode_block(vstr* ret, const uint8_t* data, size_t offset, const char* alphabet)',
+            rules=[PUSH])
+    u.block(src, ENC, ENC_SIG, ENC_IF2, new_header='void base64_encode_tail2(vstr* ret, const uint8_t* data, size_t end_offset, const char* alphabet)',
+            rules=[PUSH])
+    u.block(src, ENC, ENC_SIG, ENC_IF1, new_header='void base64_encode_tail1(vstr* ret, const uint8_t* data, size_t end_offset, const char* alphabet)',
+            rules=[PUSH])
+    u.function(src, ENC, ENC_SIG,
                new_header='void base64_encode(vstr* ret, const void* vdata, size_t size, const char* alphabet)',
-               body_prefix=' g_q = size / 3; g_i = 0; ',
+               body_prefix=' g_i = 0; ',
                rules=RETSTR + [PUSH, LoopGhost(1, 'g_i++;')], loops={1: ENCODE_LOOP}, nloops=1)
-    u.function(src, ENC, r'string base64_decode\(const void\* vdata, size_t size, const char\* alphabet\)',
+    # ---- base64_decode: loop body (step contract), and the whole function ----
+    u.block(src, ENC, DEC_SIG, DEC_FOR,
+            new_header='void base64_decode_block(vstr* ret, const uint8_t* data, size_t offset, size_t end_offset, const char* inverse_alphabet)',
+            rules=[PUSH], ret_zero='')
+    u.function(src, ENC, DEC_SIG,
                new_header='void base64_decode(vstr* ret, const void* vdata, size_t size, const char* alphabet)',
-               rules=RETSTR + [PUSH,
-                               # std::string(n, c) used as a 256-entry lookup table -> char array filled with c
-                               Rule(r'\bstring inverse_alphabet\(([^,;()]+), ([^,;()]+)\);',
-                                    r'char inverse_alphabet[\1]; __CPROVER_array_set(inverse_alphabet, (char)(\2));', count=1, regex=True),
-                               LoopGhost(2, 'g_wit = offset;'),
-                               # the table-building loop (64 iterations, no symbolic bound) is unrolled completely
-                               Unroll(1, 65, 'table')],
+               rules=RETSTR + [
+                   # std::string(n, c) used as a 256-entry lookup table -> char array filled with c
+                   Rule(r'\bstring inverse_alphabet\(([^,;()]+), ([^,;()]+)\);',
+                        r'char inverse_alphabet[\1]; __CPROVER_array_set(inverse_alphabet, (char)(\2));', count=1, regex=True),
+                   PUSH, LoopGhost(2, 'g_wit = offset;'),
+                   # the table-building loop (64 iterations, no symbolic bound) is unrolled completely
+                   Unroll(1, 65, 'table')],
                ret_zero='', loops={1: DECODE_LOOP}, nloops=1)
     u.function(src, ENC, r'string rot13\(const void\* vdata, size_t size\)',
                new_header='void rot13(vstr* ret, const void* vdata, size_t size)',
@@ -157,37 +201,48 @@ def encoding_units(ctx, src):
     return [ua, u]
 
 
-ALPHAS = [('default', 0), ('DEFAULT_ALPHABET', 1), ('URLSAFE_ALPHABET', 2)]
+SAT = ['minisat', 'cadical']      # the SMT back ends do not finish on the loop-contract groups (measured); saves cores
 
 
 def encoding_groups(ctx):
     H = 'harness/C11/encoding.c'
     gs = []
     RP = lambda mode, extra=(): Replay(driver='C11/encoding.cc', mode=mode, sources=ALL_LIB, extra=list(extra), small_define='VERIF_SMALL')
+    # ALPHA=3: the alphabet argument is a symbolic choice among nullptr (default argument), DEFAULT_ALPHABET, URLSAFE_ALPHABET
+    D = ['ALPHA=3']
     gs.append(Group(name='Encoding.base64.spec-tables-inverse', harness=H, entry='l_b64_tables', function='RFC 4648 tables (spec macros)',
-                    kind='lemma', min_post=2, defines=['ALPHA=0'],
+                    kind='lemma', min_post=2, defines=D,
                     clause_note='B64_VAL(B64_CHAR(v)) == v for v < 64 and B64_CHAR(B64_VAL(c)) == c for alphabet characters, both tables'))
-    for an, ai in ALPHAS:
-        D = ['ALPHA=%d' % ai]
-        gs.append(Group(name='Encoding.base64_encode[%s]' % an, harness=H, entry='h_base64_encode', function='base64_encode',
-                        enforce='base64_encode', loops=True, kind='loop-contract', defines=D, timeout=300, fallback_unwind=6,
-                        clause_note='contracts/C11_encoding.h: length 4*ceil(size/3); characters of group g_blk equal RFC 4648 (spec/C11_base64.h)',
-                        replay=RP('base64_encode', [str(ai)])))
-        gs.append(Group(name='Encoding.base64_decode[%s]' % an, harness=H, entry='h_base64_decode', function='base64_decode',
-                        enforce='base64_decode', loops=True, kind='loop-contract', defines=D, timeout=300, fallback_unwind=66,
-                        clause_note='contracts/C11_encoding.h: no exception <=> size%4==0 and every block acceptable; decoded octets equal RFC 4648',
-                        replay=RP('base64_decode', [str(ai)])))
-        gs.append(Group(name='Encoding.base64.roundtrip[%s]' % an, harness=H, entry='l_b64_roundtrip', function='base64_decode(base64_encode(x))',
-                        replace=['base64_encode', 'base64_decode'], kind='lemma', defines=D, min_post=5,
-                        clause_note='over the two contracts: decode(encode(x)) raises nothing at block k, has length |x| and octets 3k..3k+2 equal x'))
+    for piece, what in (('block', 'loop body: one 24-bit group'), ('tail2', 'final quantum of 16 bits'), ('tail1', 'final quantum of 8 bits')):
+        gs.append(Group(name='Encoding.base64_encode.' + piece, harness=H, entry='h_base64_encode_' + piece, function='base64_encode (%s)' % what,
+                        enforce='base64_encode_' + piece, defines=D, timeout=300, stage1=20,
+                        clause_note='contracts/C11_encoding.h: appends exactly the four characters RFC 4648 prescribes for the group',
+                        replay=RP('base64_encode_' + piece)))
+    gs.append(Group(name='Encoding.base64_encode', harness=H, entry='h_base64_encode', function='base64_encode',
+                    enforce='base64_encode', loops=True, kind='loop-contract', defines=D, timeout=900, stage1=1, engines=SAT, first='cadical',
+                    fallback_unwind=6,
+                    clause_note='contracts/C11_encoding.h: length 4*ceil(size/3); characters of group g_blk equal RFC 4648 (spec/C11_base64.h)',
+                    replay=RP('base64_encode')))
+    gs.append(Group(name='Encoding.base64_decode.block', harness=H, entry='h_base64_decode_block', function='base64_decode (loop body: one block)',
+                    enforce='base64_decode_block', defines=D, timeout=300, stage1=20,
+                    clause_note='contracts/C11_encoding.h: no exception <=> the block is acceptable (B64_BLOCK_OK); appended octets equal RFC 4648',
+                    replay=RP('base64_decode_block')))
+    gs.append(Group(name='Encoding.base64_decode', harness=H, entry='h_base64_decode', function='base64_decode',
+                    enforce='base64_decode', loops=True, kind='loop-contract', defines=D, timeout=900, stage1=1, engines=SAT, first='cadical',
+                    fallback_unwind=5,
+                    clause_note='contracts/C11_encoding.h: no exception <=> size%4==0 and every block acceptable; decoded octets equal RFC 4648',
+                    replay=RP('base64_decode')))
+    gs.append(Group(name='Encoding.base64.roundtrip', harness=H, entry='l_b64_roundtrip', function='base64_decode(base64_encode(x))',
+                    replace=['base64_encode', 'base64_decode'], kind='lemma', defines=D, min_post=5, timeout=600, stage1=20,
+                    clause_note='over the two contracts: decode(encode(x)) raises nothing at block k, has length |x| and octets 3k..3k+2 equal x'))
     gs.append(Group(name='Encoding.rot13', harness=H, entry='h_rot13', function='rot13', enforce='rot13', loops=True, kind='loop-contract',
-                    defines=['ALPHA=0'], fallback_unwind=6, replay=RP('rot13'),
+                    defines=D, fallback_unwind=6, replay=RP('rot13'),
                     clause_note='contracts/C11_encoding.h: same length, byte g_k == ROT13_SPEC(input byte g_k)'))
     gs.append(Group(name='Encoding.rot13.spec-involution', harness=H, entry='l_rot13_spec', function='rot13 (spec macro)', kind='lemma',
-                    defines=['ALPHA=0'], min_post=3,
+                    defines=D, min_post=3,
                     clause_note='ROT13_SPEC(ROT13_SPEC(c)) == c; non-letters unchanged; letters map to a different letter of the same case'))
     gs.append(Group(name='Encoding.rot13.involution', harness=H, entry='l_rot13_involution', function='rot13(rot13(x))', kind='lemma',
-                    replace=['rot13'], defines=['ALPHA=0'], min_post=2,
+                    replace=['rot13'], defines=D, min_post=2,
                     clause_note='over the contract: rot13(rot13(x)) has the length of x and byte g_k equals x[g_k]'))
     return gs
 
